@@ -196,6 +196,60 @@ static void idxCommand(const Config& config, const std::vector<std::string>& ts)
     else std::cout << "bad-op idx " << sub << "\n";
 }
 
+// C14: copy the bytes of every group's buffers elsewhere and view the copies through the raw-memory
+// constructors; every accessor must return what the original returns
+static void byteCopyCheck(Tree& tree){
+    long groups = 0, values = 0, bad = 0;
+    auto cmpCnt = [&](const Cnt& a, const Cnt& b){ ++values; if(std::memcmp(&a, &b, sizeof(Cnt)) != 0) ++bad; };
+    for(long l = 0 ; l < tree.getHeight() ; ++l){
+        for(auto& g : tree.getCellGroupsAtLevel(l)){
+            auto ps = g.getDataPtrsAndSizes();
+            std::vector<std::unique_ptr<unsigned char[]>> bufs;
+            std::array<std::pair<unsigned char*, size_t>, 3> cp;
+            for(int k = 0 ; k < 3 ; ++k){
+                bufs.emplace_back(new unsigned char[ps[k].second + 16]);
+                cp[k].first = bufs.back().get() + 8; cp[k].second = ps[k].second;
+                std::memcpy(cp[k].first, ps[k].first, ps[k].second);
+            }
+            typename Tree::CellGroupClass view(cp);
+            ++groups;
+            ++values; if(view.getNbCells() != g.getNbCells() || view.getStartingSpacialIndex() != g.getStartingSpacialIndex() || view.getEndingSpacialIndex() != g.getEndingSpacialIndex()) ++bad;
+            for(long c = 0 ; c < g.getNbCells() ; ++c){
+                ++values; if(view.getCellSpacialIndex(c) != g.getCellSpacialIndex(c) || view.getCellBoxCoord(c) != g.getCellBoxCoord(c)) ++bad;
+                cmpCnt(view.getCellMultipole(c), g.getCellMultipole(c));
+                cmpCnt(view.getCellLocal(c), g.getCellLocal(c));
+                ++values; if(view.getElementFromSpacialIndex(g.getCellSpacialIndex(c)) != std::optional<long>(c)) ++bad;
+            }
+        }
+    }
+    for(auto& g : tree.getParticleGroups()){
+        auto ps = g.getDataPtrsAndSizes();
+        std::vector<std::unique_ptr<unsigned char[]>> bufs;
+        std::array<std::pair<unsigned char*, size_t>, 2> cp;
+        for(int k = 0 ; k < 2 ; ++k){
+            bufs.emplace_back(new unsigned char[ps[k].second + 16]);
+            cp[k].first = bufs.back().get() + 8; cp[k].second = ps[k].second;
+            std::memcpy(cp[k].first, ps[k].first, ps[k].second);
+        }
+        typename Tree::LeafGroupClass view(cp);
+        ++groups;
+        ++values; if(view.getNbLeaves() != g.getNbLeaves() || view.getNbParticles() != g.getNbParticles()) ++bad;
+        for(long lf = 0 ; lf < g.getNbLeaves() ; ++lf){
+            ++values; if(view.getLeafSpacialIndex(lf) != g.getLeafSpacialIndex(lf) || view.getNbParticlesInLeaf(lf) != g.getNbParticlesInLeaf(lf) || view.getLeafBoxCoord(lf) != g.getLeafBoxCoord(lf)) ++bad;
+            const auto d0 = TbfUtils::make_const(g).getParticleData(lf); const auto d1 = TbfUtils::make_const(view).getParticleData(lf);
+            const auto r0 = TbfUtils::make_const(g).getParticleRhs(lf); const auto r1 = TbfUtils::make_const(view).getParticleRhs(lf);
+            for(long p = 0 ; p < g.getNbParticlesInLeaf(lf) ; ++p){
+                ++values; if(view.getParticleIndexes(lf)[p] != g.getParticleIndexes(lf)[p]) ++bad;
+                for(long k = 0 ; k < Dim ; ++k){ ++values; if(std::memcmp(&d0[k][p], &d1[k][p], sizeof(RealType)) != 0) ++bad; }
+                for(long k = 0 ; k < NSLOT ; ++k){ ++values; if(r0[k][p] != r1[k][p]) ++bad; }
+                // relative addresses agree
+                ++values; if((reinterpret_cast<const unsigned char*>(&d0[0][p]) - ps[0].first) != (reinterpret_cast<const unsigned char*>(&d1[0][p]) - cp[0].first)) ++bad;
+            }
+        }
+    }
+    std::cout << "BC groups=" << groups << " values=" << values << " bad=" << bad << "\n";
+}
+
 static void flushLog(){
     for(auto& s : RecLog::lines()) std::cout << s << "\n";
     for(auto& s : RecLog::errors()) std::cout << s << "\n";
@@ -244,6 +298,9 @@ int main(){
         }
         else if(op == "idx"){
             idxCommand(*cs.config, ts);
+        }
+        else if(op == "bytecopy"){
+            byteCopyCheck(*cs.tree);
         }
         else if(op == "mark"){
             std::cout << "M " << (ts.size() > 1 ? ts[1] : "") << "\n";
